@@ -52,7 +52,9 @@ func (s *Shout) UnmarshalFlag(v string) error {
 // PLevel is an integer-kinded type whose Marshaler and Unmarshaler both have pointer receivers (the usual way to write them).
 type PLevel int
 
-func (l *PLevel) MarshalFlag() (string, error) { return []string{"low", "high"}[((int(*l)%2)+2)%2], nil }
+func (l *PLevel) MarshalFlag() (string, error) {
+	return []string{"low", "high"}[((int(*l)%2)+2)%2], nil
+}
 
 func (l *PLevel) UnmarshalFlag(s string) error {
 	switch s {
